@@ -469,6 +469,7 @@ func C02(ctx *core.Ctx, r *core.Report) {
 	c02WhenPerNode(ctx, r)
 	c02AbsolutePathFromRoot(ctx, r)
 	c02RestrictedEnumKeepsValue(ctx, r)
+	c02ExplicitNumberByFlag(ctx, r)
 	r.Count("instances:append-aliasing(found)", appendAliasing(ctx, r, scopeFuncs(ctx, "meta")))
 	r.Count("instances:visited-guard-only", visitedGuardOnly(ctx, r, scopeFuncs(ctx, "meta")))
 	r.Count("instances:memo-key-complete(tables found)", memoKeyComplete(ctx, r, scopeFuncs(ctx, "meta", "compile.go", "core.go", "core_gen.go", "util.go")))
